@@ -87,6 +87,9 @@ EDITS = {
         ("pp03", PAR + "preparser.rs", "        } else if token.kind != TokenKind::Eof {", "        } else if token.kind != TokenKind::Error {", "verus", "preparse"),
         ("pp04", PAR + "preparser.rs", "            // Collect trivia\n            pending_trivia.push(i);", "            if token.kind != TokenKind::Whitespace { pending_trivia.push(i); }", "verus", "preparse"),
         ("cp01", PAR + "cst_parser.rs", "        self.current += 1;\n    }\n\n    /// Expect a specific token kind", "        self.current += 2;\n    }\n\n    /// Expect a specific token kind", "verus", "parser_tokens"),
+        ("cp03", PAR + "cst_parser.rs", "            if self.current == before && !self.is_at_end() {", "            if self.current != before && !self.is_at_end() {", "verus", "parser_tokens"),
+        ("cp04", PAR + "cst_parser.rs", "        if self.check(kind) {\n            self.bump();\n            true", "        if self.check(kind) {\n            true", "verus", "parser_tokens"),
+        ("cp05", PAR + "cst_parser.rs", "        self.peek().is_none_or(|k| k == TokenKind::Eof)", "        self.peek().is_none_or(|k| k == TokenKind::Error)", "verus", "parser_tokens"),
         ("cp02", PAR + "cst_parser.rs", "self.builder.add_token(token_idx, token.length);", "self.builder.add_token(token_idx + 1, token.length);", "verus", "parser_tokens"),
     ],
     "C17": [
